@@ -402,13 +402,19 @@ class DB:
         if block_height > self.state.height:
             raise self.DBError(f'block {block_height:,d} not on disk (>{self.state.height:,d})')
         assert block_height >= 0
-        if block_height > 0:
-            first_tx_num = self.tx_counts[block_height - 1]
-        else:
-            first_tx_num = 0
-        num_txs_in_block = self.tx_counts[block_height] - first_tx_num
+        try:
+            if block_height > 0:
+                first_tx_num = self.tx_counts[block_height - 1]
+            else:
+                first_tx_num = 0
+            num_txs_in_block = self.tx_counts[block_height] - first_tx_num
+        except IndexError:
+            # A block is being undone in another thread: tx_counts is already shorter than
+            # state.height suggests
+            raise self.DBError(f'block {block_height:,d} not on disk') from None
         tx_hashes = self.hashes_file.read(first_tx_num * 32, num_txs_in_block * 32)
-        assert num_txs_in_block == len(tx_hashes) // 32
+        if num_txs_in_block != len(tx_hashes) // 32:
+            raise self.DBError(f'block {block_height:,d} not fully on disk')
         return [tx_hashes[idx * 32: (idx + 1) * 32] for idx in range(num_txs_in_block)]
 
     async def tx_hashes_at_blockheight(self, block_height):
